@@ -633,7 +633,7 @@ def check(run: lib.Run, audit: dict) -> int:
                        "a call to expand that does not return within 5 s is reported as non-terminating"]
     if not audit["ok"]:
         raise lib.CheckError(f"Lean build/audit failed at {audit['stage']}: {audit.get('log') or audit.get('forbidden') or audit.get('bad_axioms')}")
-    run_all(run, audit)
+    run_all(run, audit, scale=run.boost)
     if run.disagreements and not run.spec_failures:
         run_all(run, audit, scale=5)  # correspondence broke: widen the search for a failing input
     violations = []
